@@ -249,6 +249,38 @@ def _random_case(draw, hi):
     return case
 
 
+def check_generated(case: dict):
+    """mazes as the generators hand them out (generation metadata attached: recorded start, visited cells, flags): the queries must
+    describe the connection bits, whatever the metadata says"""
+    m = call("C13:generator", L.run_generator, case)
+    g = L.g_of(m)
+    r, c = g["r"], g["c"]
+    a = M.adj(g)
+    for k, u in enumerate(sorted(a)):
+        if k % max(1, case.get("stride", 1)) != 0:
+            continue
+        comp = call("C13:generated:component", m.gen_connected_component_from, np.array(u))
+        want = M.component(a, u)
+        got = L.as_cells(comp)
+        require(len(got) == len(set(got)) and set(got) == want, "C13:generated:component",
+                f"{case['gen']} {case.get('kw')} on {r}x{c}: component from {u} has {len(got)} cells, {len(want)} are reachable through the connections; bits={g['cl']}")
+        nb = L.as_cells(call("C13:generated:get_coord_neighbors", m.get_coord_neighbors, np.array(u)))
+        require(set(nb) == set(a[u]) and len(nb) == len(set(nb)), "C13:generated:get_coord_neighbors", f"{u}: {nb} vs {sorted(a[u])}")
+    deg = call("C13:generated:coord_degrees", m.coord_degrees)
+    require(all(int(deg[i, j]) == len(nbrs) for (i, j), nbrs in a.items()), "C13:generated:coord_degrees", "degrees differ from the connection bits")
+    E = M.n_edges(g)
+    return {"nt": 0 < E < len(M.lattice_edges(r, c)), "labels": ["generated", case["gen"]]}
+
+
+@st.composite
+def _generated(draw, hi):
+    case = draw(G.generator_call(lo=2, hi=hi, square=False))
+    if case["gen"] in ("gen_percolation", "gen_dfs_percolation") and draw(st.booleans()):
+        case["kw"]["p"] = draw(st.sampled_from([0.2, 0.3, 0.5, 0.7]))
+    case["stride"] = 1 if case["r"] * case["c"] <= 40 else 3
+    return case
+
+
 def check_twins(case: dict):
     """mazes of different shapes whose connection arrays hold the same flags in the same flat order (3x4 / 4x3 / 2x6 / 6x2 ...), queried
     one after the other in one process: an answer must depend on the shape too, not only on the flags"""
@@ -309,6 +341,7 @@ def subs(tier: str):
         Sub("forks-exhaustive<=3x3", check, "exhaustive", cases=_exhaustive_fork_cases, exhaustive_flag=True),
         *([] if q else [Sub("exhaustive-2x4-2x5-1xN", check, "exhaustive", cases=_exhaustive_medium, exhaustive_flag=True)]),
         Sub("random", check, "hypothesis", strategy=lambda: _random_case(15 if q else 25), examples=40 if q else 2000),
+        Sub("generated-mazes-with-metadata", check_generated, "hypothesis", strategy=lambda: _generated(8 if q else 12), examples=40 if q else 800),
         Sub("same-flags-other-shape", check_twins, "hypothesis", strategy=_twins, examples=20 if q else 400),
         Sub("large-grids", check, "hypothesis", strategy=_big_case, examples=3 if q else 20),
     ]
